@@ -147,12 +147,22 @@ def pairs(top: str = "p", internal_aliases: bool = True):
         if free and draw(st.booleans()):
             for n in draw(st.lists(st.sampled_from(free), unique=True, min_size=1, max_size=2)):
                 w = draw(single(n, "R", 2, kinds=("func", "func", "attr")))
-                if draw(st.integers(0, 3)) == 0:
+                if draw(st.integers(0, 2)) == 0:
                     inner = draw(st.lists(st.sampled_from(POOL), unique=True, max_size=3))
                     w = {"k": "class", "n": n, "doc": draw(st.booleans()), "members": [draw(single(i, "R", 2, kinds=("func", "attr"))) for i in inner]}
+                # how the runtime module gets the name: 0 = wildcard import from _impl; 2 / 3 = explicit re-export over
+                # two / three alias hops (module -> _api [-> _api2] -> _core, which defines it)
+                w["hop"] = draw(st.sampled_from([0, 0, 2, 3]))
                 ws.append(w)
                 rel = draw(st.sampled_from(["same"] * 6 + ["diff", "alias", "none", "none"]))
-                if rel == "same":
+                if rel == "same" and w["k"] == "class" and w["hop"]:
+                    # stubs at the public location, with stub-only members inside the re-exported class
+                    sc = draw(single(n, "S", 1, kinds=("class",)))
+                    extra = [x for x in POOL if x not in {m["n"] for m in w["members"]} | {m["n"] for m in sc["members"]}]
+                    if extra:
+                        sc["members"].append(draw(single(extra[0], "S", 2, kinds=("attr", "func"))))
+                    ss.append(sc)
+                elif rel == "same":
                     ss.append(draw(single(n, "S", 1, kinds=(w["k"],))))
                 elif rel == "diff":
                     ss.append(draw(single(n, "S", 1, kinds=tuple(x for x in ("func", "attr", "class") if x != w["k"]))))
@@ -251,19 +261,40 @@ def overload_signatures(m: dict) -> list:
 IMPL = "_impl"
 
 
+API, API2, CORE = "_api", "_api2", "_core"
+
+
 def render_impl(pair: dict, top: str) -> str:
     """The private sibling module defining the wildcard-provided members."""
     lines: list[str] = []
-    _render_members(pair.get("W", []), "R", top, "", "", lines)
+    _render_members([w for w in pair.get("W", []) if not w.get("hop")], "R", top, "", "", lines)
     return "\n".join(lines) + "\n"
 
 
-def render_module(mod: dict, side: str, top: str, wildcard: bool = False) -> str:
+def render_reexports(pair: dict, top: str) -> dict[str, str]:
+    """{file name: source} of the modules behind the explicit re-exports: _core defines, _api (and _api2) re-export."""
+    hops = [w for w in pair.get("W", []) if w.get("hop")]
+    if not hops:
+        return {}
+    lines: list[str] = []
+    _render_members(hops, "R", top, "", "", lines)
+    api = [f"from {top}.{API2 if w['hop'] == 3 else CORE} import {w['n']}" for w in hops]
+    api2 = [f"from {top}.{CORE} import {w['n']}" for w in hops if w["hop"] == 3]
+    return {f"{CORE}.py": "\n".join(lines) + "\n", f"{API}.py": "\n".join(api) + "\n", f"{API2}.py": "\n".join(api2) + "\n"}
+
+
+def runtime_import_lines(pair: dict, top: str) -> list[str]:
+    ws = pair.get("W", [])
+    lines = [f"from {top}.{IMPL} import *"] if any(not w.get("hop") for w in ws) else []
+    return lines + [f"from {top}.{API} import {w['n']}" for w in ws if w.get("hop")]
+
+
+def render_module(mod: dict, side: str, top: str, wildcard: bool | list = False) -> str:
     lines: list[str] = []
     if mod["doc"]:
         lines.append(f'"""{side}:module"""')
     if wildcard:
-        lines.append(f"from {top}.{IMPL} import *")
+        lines += wildcard if isinstance(wildcard, list) else [f"from {top}.{IMPL} import *"]
     if side == "S" and has_overloads(mod["members"]):
         lines.append("from typing import overload")
     _render_members(mod["members"], side, top, "", "", lines)
@@ -398,8 +429,18 @@ def expected(pair: dict, wildcard: bool = False, top: str = "p") -> dict:
     r, s = pair["R"], pair["S"]
     ws = pair.get("W", []) if wildcard else []
     members = _merge_container(r["members"] + ws, s["members"], "")
+    s_plain = {m["n"] for m in s["members"] if m["k"] != "alias"}
     for w in ws:
-        members[w["n"]] = {"kind": "alias", "target": f"{top}.{IMPL}.{w['n']}", "resolved": True, "runtime": True, "via": members[w["n"]]}
+        if not w.get("hop"):
+            members[w["n"]] = {"kind": "alias", "target": f"{top}.{IMPL}.{w['n']}", "resolved": True, "runtime": True, "via": members[w["n"]]}
+            continue
+        # explicit re-export over 2-3 alias hops: the merger dereferences the alias chain when the stubs define the name
+        # (listed finding merge-resolves-internal-alias: `resolved` is not judged here); the object at the end of the
+        # chain is then merged like any runtime member - including members the stubs add inside a class
+        rec = {"kind": "alias", "target": f"{top}.{API}.{w['n']}", "resolved": None, "runtime": True}
+        if w["n"] in s_plain:
+            rec["via"] = members[w["n"]]
+        members[w["n"]] = rec
     if has_overloads(s["members"]) and "overload" not in members:
         members["overload"] = {"kind": "alias", "target": "typing.overload", "resolved": False, "runtime": False}
     return {"doc": "R:module" if r["doc"] else ("S:module" if s["doc"] else None), "members": members}
@@ -423,8 +464,11 @@ def observe(module, skip: tuple = ()) -> dict:
     def member(o) -> dict:
         if o.is_alias:
             rec = {"kind": "alias", "target": o.target_path, "resolved": o.resolved, "runtime": o.runtime}
-            if o.resolved and not o.target.is_alias:
-                rec["via"] = member(o.target)  # already resolved: reading the target resolves nothing
+            t = o
+            while t.is_alias and t.resolved:
+                t = t.target  # already resolved: reading the target resolves nothing
+            if not t.is_alias:
+                rec["via"] = member(t)
             return rec
         k = o.kind.value
         if k == "attribute":
@@ -486,7 +530,7 @@ def compare(exp: dict, got: dict) -> list[tuple[str, str, str]]:
                 continue
             if field == "runtime" and e[field] is None:
                 continue
-            if field == "target" and e[field] is None:
+            if field in ("target", "resolved") and e[field] is None:
                 continue
             if field == "via":
                 if "via" not in g:
@@ -568,7 +612,7 @@ def labels(pair: dict) -> set[str]:
     s_top = {m["n"]: m for m in pair["S"]["members"]}
     for w in pair.get("W", []):
         sm_ = s_top.get(w["n"])
-        out.add("wildcard-member:" + ("no-stub" if sm_ is None else "stub-alias" if sm_["k"] == "alias" else "same-kind:" + w["k"] if sm_["k"] == w["k"] else "kind-mismatch"))
+        out.add(("reexport-%d-hops:" % w["hop"] if w.get("hop") else "wildcard-member:") + ("no-stub" if sm_ is None else "stub-alias" if sm_["k"] == "alias" else "same-kind:" + w["k"] if sm_["k"] == w["k"] else "kind-mismatch"))
     n = rec(pair["R"]["members"], pair["S"]["members"], 0)
     out.add(f"overlap:{min(n, 3)}{'+' if n >= 3 else ''}")
     return out
